@@ -256,6 +256,17 @@ fn semantic_challenges() -> Vec<(String, Vec<u8>)> {
     let mut p = std_pairs();
     p.insert(0, (9, vec![0x41; 60000]));
     out.push(("60000-byte-pair".into(), challenge_b(f, &p, true).v));
+    // target info close to the 16-bit limit of its length field (the client echoes it in its own, longer, response)
+    for total in [0xFF00usize, 0xFFC0, 0xFFD0, 0xFFD3, 0xFFD4, 0xFFD8, 0xFFE0, 0xFFF0, 0xFFFB, 0xFFFF].iter() {
+        // pairs: one filler (id 9), timestamp (12 bytes), EOL (4 bytes)
+        let filler = total - 4 - 12 - 4;
+        let p: Vec<(u16, Vec<u8>)> = vec![(9, vec![0x41; filler]), (7, vec![1; 8])];
+        out.push((format!("target-info-{:#x}-bytes", total), challenge_b(f, &p, true).v));
+    }
+    // a timestamp pair whose own length is huge
+    for l in [0x8000usize, 0xFFF0, 0xFFF7].iter() {
+        out.push((format!("timestamp-len-{:#x}", l), challenge_b(f, &[(7, vec![2; *l])], true).v));
+    }
     for flags in [0u32, 1, f & !ntlm::F_VERSION, f & !ntlm::F_UNICODE, f & !ntlm::F_KEY_EXCH, 0xffffffff].iter() {
         out.push((format!("flags-{:#x}", flags), challenge_b(*flags, &std_pairs(), true).v));
     }
